@@ -157,6 +157,7 @@ type outcome struct {
 	Err     *T     // error term if the run ended with a Prolog exception
 	GoErr   string // a non-Prolog Go error (parse errors, context errors, "panic: ...")
 	More    bool   // stopped at the answer bound with more answers possible
+	Raw     error  `json:"-"` // the error value as returned (C05 renders it)
 }
 
 func errTerm(err error) (*T, string) {
@@ -179,12 +180,14 @@ func runQueryCtx(ctx context.Context, p *prolog.Interpreter, max int, names []st
 	sols, err := p.QueryContext(ctx, query, args...)
 	if err != nil {
 		out.Err, out.GoErr = errTerm(err)
+		out.Raw = err
 		return
 	}
 	defer sols.Close()
 	for len(out.Answers) < max {
 		if !sols.Next() {
 			out.Err, out.GoErr = errTerm(sols.Err())
+			out.Raw = sols.Err()
 			return
 		}
 		holder := scanAll{}
